@@ -23,17 +23,20 @@ func init() {
 	checks.Register(&checks.Check{
 		ID:        "C11",
 		Level:     "exploration",
-		Technique: "bounded-exhaustive enumeration of event declarations (indexed x selected patterns, input orders, ABI types, integer boundary values), field selections and column orders, each run once through the real pipeline (simulated node → client → row builder → COPY → fake Postgres); oracle = cell-by-cell equality with the independent declared projection",
+		Technique: "bounded-exhaustive enumeration of event declarations (indexed x selected patterns, input orders, ABI types incl. fixed array lengths across the one/two-digit boundary at top level, nested and as tuple components, integer boundary values), field selections and column orders, each run once through the real pipeline (simulated node → client → row builder → COPY → fake Postgres); oracle = cell-by-cell equality with the independent declared projection",
 		Rule: "cases = (a) events with 1..4 inputs: every distinct order of each type multiset x every {indexed,not} x {selected,not} pattern with >= 1 selected input, <= 3 indexed, dynamic types never indexed, with and without two block fields; " +
 			"(b) every integer width 8..256 step 8, signed and unsigned, as topic and as data, two value rotations, values from the sign/width boundary sets (0, 1, max, min, -1, 2^(n-1), 2^(n-1)-1) AND the machine-word value boundaries +-(2^63-1), +-2^63, +-(2^63+1), +-(2^64-1), +-2^64, +-(2^64+1), +-12500000000000000000 wherever the width admits them, as sign-extended words, every value as topic and as data; " +
 			"(c) every field name alone (log / log-without-data / tx / trace indexing where the field is well-formed, two column namings) and every subset of size <= 3 of a representative field set in both column orders; " +
-			"(d) array inputs uint256[], address[], int64[], int128[], address[2], uint8[3], bytes[], bytes[2], bytes[3], string[], string[2] and the nested bytes[][], bytes[2][], bytes[][2], string[][], string[2][], uint256[][], address[2][] (elements include empty byte strings / strings) with 0..3 elements combined with scalar inputs before/after and an explicit abi_idx column. " +
+			"(d) array inputs uint256[], address[], int64[], int128[], address[2], uint8[3], bytes[], bytes[2], bytes[3], string[], string[2] and the nested bytes[][], bytes[2][], bytes[][2], string[][], string[2][], uint256[][], address[2][] (elements include empty byte strings / strings) with 0..3 elements combined with scalar inputs before/after and an explicit abi_idx column; " +
+			"(e) fixed-size arrays T[k] for EVERY k in {9, 10, 11, 12, 21} (one- and two-digit lengths: the 9/10 boundary, a palindrome, a digit pair in both orders) x T in {uint256, address, int64, bytes, string}, plus the nested uint256[k][], uint256[][k], bytes[k][], address[k][2], in the seven patterns of (d) and in two patterns where the array is NOT selected and selected columns are declared after it (a wrong extent shifts the next field), with and without the explicit abi_idx column; " +
+			"(f) the arrays T[k], k in {2, 9, 10, 11, 12, 21}, T in {uint256, address, bytes, string}, as a COMPONENT of a non-array tuple input (static tuple = inline, dynamic tuple = behind an offset), selected or not, in four patterns with selected columns after the array inside and outside the tuple (topic = keccak of the canonical signature with the tuple expanded, data by the reference encoder). " +
 			"Chains: 2-3 blocks, 1-2 txs per block, 1-3 matching logs per tx plus decoys, 1-2 traces per tx; every tx/receipt/trace field distinct and non-zero. A case is non-trivial when the declared projection has at least one row; cases are distinct declarations.",
 		Assumptions: []string{
 			"fake Postgres (h/simpg) decodes binary COPY by column type; simulated node (h/simeth) answers like a well-behaved geth/erigon",
 			"column types are the documented ones: numeric for integers, bytea, text, bool, int",
 			"indexed inputs of dynamic type (topic = hash) are not enumerated; strings are valid UTF-8 without NUL",
 			"the cell of an array column in the singleton row of an EMPTY array is not judged (the property does not define it); all other cells of that row are",
+			"tuple declarations (f): the declared projection is computed from a twin chain that carries the same values as logs of the FLAT event (components declared side by side; a non-array tuple's components project like top-level inputs), so content-derived fields (block_hash) are not selected in (f)",
 			"log_idx/log_addr are only selected together with log indexing, trace_action_* only without selected event inputs",
 		},
 		Budget:        map[string]time.Duration{"quick": 110 * time.Second, "thorough": 850 * time.Second},
@@ -207,7 +210,18 @@ func c11Specs(thorough bool) []spec {
 		"bytes[]", "bytes[2]", "bytes[3]", "string[]", "string[2]", "bytes[][]", "bytes[2][]", "bytes[][2]", "string[][]", "string[2][]", "uint256[][]", "address[2][]"}
 	lens := [][]int{{0, 1, 2, 3}, {3, 0, 2, 1}, {1, 1, 0, 0}}
 	// (string arrays: an empty element used to be stored as NULL; repaired in /repo e5b1031)
-	for _, at := range arrTypes {
+	// (e) fixed-size arrays whose declared length is written with one and with two digits (9, 10, 11, 12, 21: the
+	// 9/10 boundary, a palindrome, a digit pair in both orders), static and dynamic element types, at top level and
+	// as the inner / outer dimension of a nested array; every pattern below puts another selected column after
+	// (or before) the array, so a wrong extent of the array shifts the neighbouring field
+	nFirstFixed := len(arrTypes)
+	for _, k := range []int{9, 10, 11, 12, 21} {
+		for _, b := range []string{"uint256", "address", "int64", "bytes", "string"} {
+			arrTypes = append(arrTypes, fmt.Sprintf("%s[%d]", b, k))
+		}
+		arrTypes = append(arrTypes, fmt.Sprintf("uint256[%d][]", k), fmt.Sprintf("uint256[][%d]", k), fmt.Sprintf("bytes[%d][]", k), fmt.Sprintf("address[%d][2]", k))
+	}
+	for ai, at := range arrTypes {
 		pats := [][]inSpec{
 			{{T: at, Sel: true}},
 			{{T: "address", Ix: true, Sel: true}, {T: at, Sel: true}},
@@ -217,6 +231,12 @@ func c11Specs(thorough bool) []spec {
 			{{T: "string", Sel: true}, {T: at, Sel: true}, {T: "address", Ix: true, Sel: true}},
 			{{T: "address", Ix: true}, {T: at, Sel: true}, {T: "address", Ix: true, Sel: true}},
 		}
+		if ai >= nFirstFixed {
+			// the array itself NOT selected: the columns declared after it must still hold their own values
+			pats = append(pats,
+				[][]inSpec{{{T: at}, {T: "uint256", Sel: true}},
+					{{T: "address", Ix: true, Sel: true}, {T: at}, {T: "string", Sel: true}, {T: "int64", Sel: true}}}...)
+		}
 		for pi, pat := range pats {
 			for li, ls := range lens {
 				if _, dims := parseDims(at); (len(dims) != 1 || dims[0] != 0) && li > 0 {
@@ -224,8 +244,39 @@ func c11Specs(thorough bool) []spec {
 				}
 				for _, explicit := range []bool{false, true} {
 					s := spec{Part: "array", Inputs: pat, Shape: (pi + li) % 2, ArrLens: ls, VOff: pi}
+					if ai >= nFirstFixed {
+						s.Part = "array-fixed-length-digits"
+					}
 					if explicit {
 						s.Fields = []string{"abi_idx", "tx_hash"}
+						s.Prefix = "c_"
+					}
+					out = append(out, s)
+				}
+			}
+		}
+	}
+	// (f) the same fixed-size arrays as COMPONENTS of a (non-array) tuple input, static tuples (inline) and dynamic
+	// tuples (behind an offset), the array selected or not, always with selected columns declared after it inside
+	// and outside the tuple; single-digit lengths 2 and 9 are the controls
+	for _, k := range []int{2, 9, 10, 11, 12, 21} {
+		for _, b := range []string{"uint256", "address", "bytes", "string"} {
+			at := fmt.Sprintf("%s[%d]", b, k)
+			type tp struct {
+				ins []inSpec
+				tup []int
+			}
+			pats := []tp{
+				{[]inSpec{{T: at, Sel: true}, {T: "uint256", Sel: true}, {T: "int64", Sel: true}}, []int{0, 2}},
+				{[]inSpec{{T: "address", Ix: true, Sel: true}, {T: "uint256", Sel: true}, {T: at, Sel: true}, {T: "string", Sel: true}}, []int{1, 3}},
+				{[]inSpec{{T: at}, {T: "uint256", Sel: true}, {T: "int64", Sel: true}}, []int{0, 2}},
+				{[]inSpec{{T: "bool"}, {T: at, Sel: true}, {T: "address", Sel: true}}, []int{0, 3}},
+			}
+			for pi, pat := range pats {
+				for _, explicit := range []bool{false, true} {
+					s := spec{Part: "tuple-fixed-length-digits", Inputs: pat.ins, Tup: pat.tup, Shape: (pi + k) % 2, VOff: pi + k}
+					if explicit {
+						s.Fields = []string{"abi_idx", "tx_hash"} // (block_hash is content-derived: not selected with a twin oracle chain)
 						s.Prefix = "c_"
 					}
 					out = append(out, s)
